@@ -49,6 +49,19 @@ type algebra[S any] interface {
 	Difference(S) S
 }
 
+// class maps a value to its equivalence class under the comparator (identity
+// for the one-to-one comparators): with a many-to-one comparator the members
+// of a TreeSet are classes, and the algebra is over classes.
+func class(cmpID string, x int) int {
+	switch cmpID {
+	case dom.Half:
+		return x >> 1
+	case dom.Mod5:
+		return ((x % 5) + 5) % 5
+	}
+	return x
+}
+
 func sorted(xs []int) []int {
 	out := slices.Clone(xs)
 	slices.Sort(out)
@@ -75,21 +88,22 @@ func run[S algebra[S]](c Case, mk func() S, ordered bool) (pbt.Info, error) {
 		b.Add(c.B...)
 		b.Remove(c.BRem...)
 	}
+	cl := func(x int) int { return class(c.Cmp, x) }
 	ma, mb := map[int]bool{}, map[int]bool{}
 	for _, x := range c.A {
-		ma[x] = true
+		ma[cl(x)] = true
 	}
 	for _, x := range c.ARem {
-		delete(ma, x)
+		delete(ma, cl(x))
 	}
 	if c.Same {
 		mb = ma
 	} else {
 		for _, x := range c.B {
-			mb[x] = true
+			mb[cl(x)] = true
 		}
 		for _, x := range c.BRem {
-			delete(mb, x)
+			delete(mb, cl(x))
 		}
 	}
 	mr := map[int]bool{}
@@ -120,7 +134,11 @@ func run[S algebra[S]](c Case, mk func() S, ordered bool) (pbt.Info, error) {
 	verify := func(name string, s S, m map[int]bool, when string) error {
 		want := members(m)
 		got := s.Values()
-		if !slices.Equal(sorted(got), want) {
+		gotClasses := make([]int, len(got))
+		for i, x := range got {
+			gotClasses[i] = cl(x)
+		}
+		if !slices.Equal(sorted(gotClasses), want) {
 			return fmt.Errorf("%s %s: %s holds %v, want %v", c.Kind, when, name, sorted(got), want)
 		}
 		if s.Size() != len(want) {
@@ -131,8 +149,8 @@ func run[S algebra[S]](c Case, mk func() S, ordered bool) (pbt.Info, error) {
 			top = c.Hi + 2
 		}
 		for x := -1; x <= top; x++ {
-			if s.Contains(x) != m[x] {
-				return fmt.Errorf("%s %s: %s.Contains(%d)=%v, want %v", c.Kind, when, name, x, s.Contains(x), m[x])
+			if s.Contains(x) != m[cl(x)] {
+				return fmt.Errorf("%s %s: %s.Contains(%d)=%v, want %v", c.Kind, when, name, x, s.Contains(x), m[cl(x)])
 			}
 		}
 		if ordered {
@@ -190,10 +208,10 @@ func run[S algebra[S]](c Case, mk func() S, ordered bool) (pbt.Info, error) {
 		switch mu.O {
 		case "add":
 			target.Add(mu.X)
-			model[mu.X] = true
+			model[cl(mu.X)] = true
 		case "rem":
 			target.Remove(mu.X)
-			delete(model, mu.X)
+			delete(model, cl(mu.X))
 		case "clear":
 			target.Clear()
 			for k := range model {
@@ -241,20 +259,23 @@ func check(c Case) (pbt.Info, error) {
 	// relation labels, computed on the operand contents
 	ma, mb := map[int]bool{}, map[int]bool{}
 	for _, x := range c.A {
-		ma[x] = true
+		ma[class(c.Cmp, x)] = true
 	}
 	for _, x := range c.ARem {
-		delete(ma, x)
+		delete(ma, class(c.Cmp, x))
 	}
 	if c.Same {
 		mb = ma
 	} else {
 		for _, x := range c.B {
-			mb[x] = true
+			mb[class(c.Cmp, x)] = true
 		}
 		for _, x := range c.BRem {
-			delete(mb, x)
+			delete(mb, class(c.Cmp, x))
 		}
+	}
+	if dom.Coarse(c.Cmp) {
+		info.Label("many-to-one-comparator")
 	}
 	common, onlyA, onlyB := 0, 0, 0
 	for x := range ma {
@@ -296,7 +317,7 @@ func gen(kind string) func(t *rapid.T) Case {
 	return func(t *rapid.T) Case {
 		c := Case{Kind: kind}
 		if kind == "treeset" {
-			c.Cmp = dom.TotalCmps[rapid.IntRange(0, len(dom.TotalCmps)-1).Draw(t, "cmp")]
+			c.Cmp = dom.AllCmps[rapid.IntRange(0, len(dom.AllCmps)-1).Draw(t, "cmp")]
 		}
 		hi, maxA, maxB := 9, 8, 8
 		if rapid.IntRange(0, 9).Draw(t, "large") == 0 {
@@ -307,7 +328,13 @@ func gen(kind string) func(t *rapid.T) Case {
 			maxB = []int{80, 6, 80}[rapid.IntRange(0, 2).Draw(t, "sizeB")]
 		}
 		vals := func(label string, maxN int) []int {
-			return rapid.SliceOfN(rapid.IntRange(0, hi), 0, maxN).Draw(t, label)
+			minN := 0
+			if maxN >= 80 {
+				minN = 25 // "large" really means dozens of elements
+			} else if hi > 9 && maxN <= 6 && label != "arem" && label != "brem" {
+				minN = 2
+			}
+			return rapid.SliceOfN(rapid.IntRange(0, hi), minN, maxN).Draw(t, label)
 		}
 		c.A, c.ARem = vals("a", maxA), vals("arem", 3)
 		if rapid.IntRange(0, 7).Draw(t, "same") == 0 {
